@@ -16,7 +16,7 @@ PROPS = {
     'C01': {
         'correspondence': CORR_L1,
         'coq': ['theories/Props/C01.vo', 'theories/Inst/C01_now.vo', 'theories/L2/PropsC01.vo', 'theories/L2/Inst.vo', 'theories/Inst/Fut_now.vo', 'theories/SyncFut/PropsC08.vo', 'theories/Inst/C08_now.vo', 'theories/Inst/Wrapper_now.vo', 'theories/L1n/PropsL1n.vo', 'theories/L1n/Inst.vo', 'theories/L2/PropsC08.vo'],
-        'profiles': [prof('core', (60, 15), (1500, 60)), prof('sync', (40, 15), (800, 60)), prof('fut', (50, 15), (1000, 60)), prof('fsync', (30, 10), (600, 40)), prof('pipein', (20, 10), (400, 40), extra=['--max-steps', '30000']), prof('sweep:overlap_sweep.progs', (0, 2), (0, 12)), prof('progs:fut_extra.progs', (0, 60), (0, 1500)), prof('progs:cancel.progs', (0, 100), (0, 3000)), prof('progs:syncfut_extra.progs', (0, 20), (0, 300)), prof('progs:pipe_yield.progs', (0, 60), (0, 1500), extra=['--max-steps', '30000'])],
+        'profiles': [prof('core', (60, 15), (1500, 60)), prof('sync', (40, 15), (800, 60)), prof('fut', (50, 15), (1000, 60)), prof('fsync', (30, 10), (600, 40)), prof('pipein', (20, 10), (400, 40), extra=['--max-steps', '30000']), prof('sweep:overlap_sweep.progs', (0, 2), (0, 12)), prof('progs:fut_extra.progs', (0, 60), (0, 1500)), prof('progs:cancel.progs', (0, 100), (0, 3000)), prof('progs:syncfut_extra.progs', (0, 20), (0, 300)), prof('progs:pipe_yield.progs', (0, 60), (0, 1500), extra=['--max-steps', '30000']), prof('progs:unwind_drop.progs', (0, 5), (0, 30), real=True)],
         'monitors': ['C01'], 'liveness': False, 'panics': False,
         'trusted_base': L1_TRUST,
         'assumptions': ['L1: all programs of desync/sync/try_sync on any number of objects; L2: one queue with future-based operations, exclusive across awaits (the suspended operation stays in the runner\'s hand or at the head of the queue)'],
@@ -48,7 +48,7 @@ PROPS = {
     'C05': {
         'correspondence': CORR_L1,
         'coq': ['theories/L1h/PropsC05.vo', 'theories/L1h/Inst.vo', 'theories/Inst/Fut_now.vo', 'theories/Inst/Wrapper_now.vo', 'theories/L1n/PropsL1n.vo', 'theories/L1n/Inst.vo'],
-        'profiles': [prof('drop', (80, 20), (2000, 80)), prof('core', (30, 10), (600, 40)), prof('pipein', (40, 15), (600, 60), extra=['--max-steps', '30000']), prof('pipedrop', (30, 10), (400, 40), extra=['--max-steps', '30000']), prof('sweep:drop_sweep.progs', (0, 2), (0, 12), extra=['--max-steps', '30000']), prof('progs:fut_extra.progs', (0, 60), (0, 1500))],
+        'profiles': [prof('drop', (80, 20), (2000, 80)), prof('core', (30, 10), (600, 40)), prof('pipein', (40, 15), (600, 60), extra=['--max-steps', '30000']), prof('pipedrop', (30, 10), (400, 40), extra=['--max-steps', '30000']), prof('sweep:drop_sweep.progs', (0, 2), (0, 12), extra=['--max-steps', '30000']), prof('progs:fut_extra.progs', (0, 60), (0, 1500)), prof('progs:unwind_drop.progs', (0, 5), (0, 30), real=True)],
         'monitors': ['C05'], 'liveness': True, 'panics': True,
         'trusted_base': L1_TRUST + ['drop is modelled as what the code does: a final sync whose closure frees the value (fact drop_is_sync_free)'],
         'assumptions': ['freed-exactly-once and no-use-after-free are observed by the payload monitors (drop counter, dead flag) on the real crate; the theorem gives the ordering that makes them true'],
@@ -134,7 +134,7 @@ PROPS = {
         'assumptions': ['PARTIAL BY NATURE: proves the lifetime protocol the unsafe sites rely on (erased sync jobs never outlive their call, closures run at most once, nothing runs after the free operation); absence of undefined behaviour outside the protocol is not provable here; the same programs also run on REAL threads under AddressSanitizer (nightly toolchain; a use of the value, a job or a captured borrow after its release aborts with a report; OS scheduling, so this samples interleavings and is evidence, not proof); canary payloads (dead flag, drop counter, wrong-object check, concurrent-modification canary) are checked in every profile; '],
     },
     'C15': {
-        'coq': ['theories/Props/C15.vo', 'theories/Inst/C15_now.vo', 'theories/Inst/Wrapper_now.vo', 'theories/L1p/PropsL1p.vo', 'theories/L1p/PropsL1p2.vo', 'theories/L1p/PropsL1p3.vo'],
+        'coq': ['theories/Props/C15.vo', 'theories/Inst/C15_now.vo', 'theories/Inst/Wrapper_now.vo', 'theories/L1p/PropsL1p.vo', 'theories/L1p/PropsL1p2.vo', 'theories/L1p/PropsL1p3.vo', 'theories/L1p/PropsL1p4.vo'],
         'profiles': [prof('panic', (40, 2), (400, 4), real=True)],
         'monitors': ['C15', 'C03', 'C04', 'C07'], 'liveness': True, 'panics': True,
         'trusted_base': ['Panic/Absorb.v: the queue-state word under arbitrary sequences of table-driven events; L1p: the unwinding as ONE model step at a closure frame (queue Panicked, owner cleared, pool thread dead with its busy flag set) plus the reap pass, over the unmodified L1 step - safety theorems only; the liveness half (replacement of the lost thread) is exercised on real threads and shown on two executable model scenarios, not proved'],
